@@ -272,6 +272,7 @@ def run(ctx):
     ctx.rule('C04-R3', 'option -> escape mode mapping and one-character constants agree with the parser\'s literals', 7)
     ctx.rule('C04-R4', 'variant exhaustiveness: 7 alternatives; serialize / operator= / operator<=> handle indices 0..6 and use the accessor / get<k> of their own index; as_X returns the alternative named X', 30)
     ctx.rule('C04-R5', 'deep copy: operator=(const JSON&) assigns a fresh empty container, then inserts `new JSON(*child)` for every child; the copy constructor delegates to it', 5)
+    ctx.rule('C04-R6', 'equality family: each typed comparator reads the alternative its parameter names (absent -> unordered); std::string arguments are compared over their whole length; the JSON/JSON comparator dispatches each index to the comparator of the same alternative; lists compare element values pairwise then sizes; dicts compare sizes, then every key\'s value', 34)
     u = ctx.unit(repo_unit('JSON.cc'))
     enums = enum_env(u)
     I = ConstEval(u, enums)
@@ -545,7 +546,244 @@ def run(ctx):
     calls += [y for y in walk(body_of(cctor[0])) if y.get('kind') == 'CXXOperatorCallExpr' and call_name(y) == 'operator=']
     ok = len(calls) == 1 and (callee_decl(calls[0], u) or {}).get('mangledName') == A.get('mangledName')
     ctx.check(ok, R, 'copy-ctor|delegates', cctor[0], 'copy constructor delegates to the deep-copying assignment', 'copy constructor does not delegate to operator=(const JSON&)')
+    check_compare(ctx, u, alts)
     ctx.note('R1 is exhaustive over (mode, byte): 3 x 256 cases evaluated on the extracted tables, no code executed. Not decided: value equality for every tree, %g rounding, independent JSON implementations.')
+
+
+# --------------------------------------------------------------------------
+# R6: the comparison family (the property's own notion of "equal")
+
+_EXPECT_IDX = [('std::nullptr_t', {0}), ('nullptr_t', {0}), ('bool', {1}), ('long', {2, 3}), ('int64_t', {2, 3}), ('double', {2, 3}),
+               ('char*', {4}), ('std::string', {4}), ('std::basic_string<char>', {4}), ('list_type', {5}), ('dict_type', {6})]
+
+
+def _param_alt(f):
+    t = norm_alt(qtype(params_of(f)[0]))
+    if t.endswith('JSON') and 'list' not in t and 'dict' not in t:
+        return 'JSON', None
+    for key, idx in _EXPECT_IDX:
+        if t == key or t.endswith('::' + key) or t.endswith(key):
+            return key, idx
+    return t, None
+
+
+def _variant_index(call):
+    """N of a std::get<N> / std::get_if<N> call on the JSON variant (from the callee's declared result type)."""
+    m = re.search(r'variant_alternative_t<(\d+)', qtype(call) or '') or re.search(r'variant_alternative_t<(\d+)', qtype(kids(call)[0]) or '')
+    return int(m.group(1)) if m else None
+
+
+def _get_calls(node, names=('get_if', 'get')):
+    return [y for y in walk(node) if y.get('kind') == 'CallExpr' and call_name(y) in names and _variant_index(y) is not None]
+
+
+def _whose_value(call):
+    a = call_args(call)
+    return canon(a[0]).replace('&', '').replace('(', '').replace(')', '').strip() if a else ''
+
+
+def _is_unordered(e):
+    return any(x.get('kind') == 'DeclRefExpr' and (x.get('referencedDecl') or {}).get('name') == 'unordered' for x in walk(e))
+
+
+def check_compare(ctx, u, alts):
+    R = 'C04-R6'
+    fs = [f for f in u.func('phosg::JSON::operator<=>') if body_of(f)]
+    typed = {}
+    main = None
+    for f in fs:
+        key, idx = _param_alt(f)
+        if key == 'JSON':
+            main = f
+        elif idx is not None:
+            typed.setdefault(key, []).append((f, idx))
+    ctx.require(main is not None, 'JSON::operator<=>(const JSON&) not found')
+    ctx.fn('phosg::JSON::operator<=>(const JSON&)')
+
+    # -- typed comparators read the alternative their parameter type names, and report `unordered` when it is absent
+    for key, lst in sorted(typed.items()):
+        for f, idx in lst:
+            lab = 'operator<=>(%s)' % key
+            ctx.fn('phosg::JSON::' + lab)
+            gs = _get_calls(body_of(f))
+            used = {_variant_index(g) for g in gs}
+            whose = {_whose_value(g) for g in gs}
+            ok = bool(gs) and used <= idx and (used == idx or idx == {2, 3} and used == {2, 3}) and whose == {'this.value'}
+            if idx == {2, 3}:
+                ok = bool(gs) and used == {2, 3} and whose == {'this.value'}
+            ctx.check(ok, R, lab + '|alternative', f, 'reads alternative(s) %s of this->value' % sorted(used), '%s reads alternative(s) %s of %s; a %s argument must be compared with alternative(s) %s of this->value' % (lab, sorted(used), sorted(whose), key, sorted(idx)))
+            # the absent-alternative path yields unordered
+            nulls = [x for x in walk(body_of(f)) if x.get('kind') in ('ConditionalOperator', 'IfStmt') and any(y.get('kind') == 'CXXNullPtrLiteralExpr' for y in walk(kids(x)[0]))]
+            has_unordered = any(_is_unordered(x) for x in nulls)
+            if idx != {0}:
+                ctx.check(has_unordered, R, lab + '|absent-unordered', f, 'a value of another kind compares unordered', '%s does not return `unordered` when the stored value is of another kind' % lab)
+
+    # -- string arguments are compared over their whole length (never through a NUL-terminated view)
+    for key in ('std::string', 'std::basic_string<char>'):
+        for f, idx in typed.get(key, []):
+            v = params_of(f)[0]
+            lab = 'operator<=>(std::string)'
+            narrowing = []
+            for x in walk(body_of(f)):
+                if x.get('kind') == 'CXXMemberCallExpr' and call_name(x) in ('c_str', 'data') and (ref_decl(member_call_object(x)) or {}).get('id') == v['id']:
+                    narrowing.append(x)
+                if x.get('kind') in ('CXXMemberCallExpr', 'CallExpr', 'CXXOperatorCallExpr'):
+                    d = callee_decl(x, u)
+                    if d is not None and u.qualname(d) == 'phosg::JSON::operator<=>' and norm_alt(qtype(params_of(d)[0])).endswith('char*'):
+                        narrowing.append(x)
+            ctx.check(not narrowing, R, lab + '|whole-length', narrowing[0] if narrowing else f, 'the std::string argument is never narrowed to a C string',
+                      'the std::string argument is compared through a NUL-terminated view (%s): strings with an embedded NUL byte compare by their prefix only' % (src_text(narrowing[0], 60) if narrowing else ''))
+            cmps = []
+            for x in walk(body_of(f)):
+                if x.get('kind') == 'CXXMemberCallExpr' and call_name(x) == 'compare' and call_args(x) and (ref_decl(call_args(x)[0]) or {}).get('id') == v['id']:
+                    cmps.append(x)
+                if x.get('kind') == 'CXXOperatorCallExpr' and call_name(x) in ('operator<=>', 'operator==', 'operator<') and any((ref_decl(a) or {}).get('id') == v['id'] for a in kids(x)[1:]):
+                    cmps.append(x)
+            ctx.check(bool(cmps), R, lab + '|compares-argument', f, 'stored string compared with the argument by std::string comparison', 'no std::string comparison between the stored string and the argument was found')
+
+    # -- the JSON/JSON comparator dispatches each index to the comparator of the same alternative
+    body = body_of(main)
+    other = params_of(main)[0]
+    idxvars = {}
+    for vd in walk(body):
+        if vd.get('kind') == 'VarDecl' and kids(vd):
+            for c in walk(vd):
+                if c.get('kind') == 'CXXMemberCallExpr' and call_name(c) == 'index':
+                    idxvars[vd['id']] = canon(member_call_object(c))
+    sw = [x for x in walk(body) if x.get('kind') == 'SwitchStmt']
+    ctx.require(len(sw) == 1, 'operator<=>(const JSON&): expected one switch')
+    swv = ref_decl(kids(sw[0])[-2]) if len(kids(sw[0])) >= 2 else None
+    sw_on = idxvars.get((swv or {}).get('id'))
+    ctx.check(sw_on in ('this.value', 'other.value'), R, 'operator<=>(JSON)|switch-on-index', sw[0], 'switch over %s.index()' % sw_on, 'the switch is not over a variant index')
+    # indices must agree before the switch (apart from the int/float cross compare)
+    pre = preceding_statements(sw[0])
+    mismatch_guard = False
+    for s in pre:
+        if s.get('kind') == 'IfStmt':
+            cond, then, els = if_parts(s)
+            r = relation(cond, True)
+            if r and r[1] == '!=' and {idxvars.get((ref_decl(r[0]) or {}).get('id')), idxvars.get((ref_decl(r[2]) or {}).get('id'))} == {'this.value', 'other.value'} and _is_unordered(then) and not falls_through(then):
+                mismatch_guard = True
+    ctx.check(mismatch_guard, R, 'operator<=>(JSON)|kind-mismatch-unordered', main, 'different kinds (other than int/float) compare unordered before the switch', 'no `if (this_index != other_index) return unordered` dominates the switch')
+    # cross int/float branches
+    for s in pre:
+        if s.get('kind') != 'IfStmt':
+            continue
+        node = s
+        while node is not None and node.get('kind') == 'IfStmt':
+            cond, then, els = if_parts(node)
+            want = {}
+            for n_, pol in atoms([Fact(cond, True, None)]):
+                r = relation(n_, pol)
+                if r and r[1] == '==' and int_value(r[2]) is not None:
+                    who = idxvars.get((ref_decl(r[0]) or {}).get('id'))
+                    if who:
+                        want[who] = int_value(r[2])
+            if len(want) == 2:
+                gs = _get_calls(then, ('get',))
+                got = {_whose_value(g): _variant_index(g) for g in gs}
+                ctx.check(got == want, R, 'operator<=>(JSON)|cross-%d-%d' % (want['this.value'], want['other.value']), node,
+                          'int/float cross compare reads get<%d>(this) and get<%d>(other)' % (want['this.value'], want['other.value']),
+                          'branch for this_index == %d && other_index == %d reads %s' % (want['this.value'], want['other.value'], got))
+            node = els if els is not None and els.get('kind') == 'IfStmt' else None
+    cases = {}
+    order = []
+    for c in walk(sw[0]):
+        if c.get('kind') == 'CaseStmt':
+            k = int_value(kids(c)[0])
+            cases[k] = c
+            order.append(k)
+    expect = {1: {1}, 2: {2, 3}, 3: {2, 3}, 4: {4}, 5: {5}, 6: {6}}
+    for k in sorted(expect):
+        c = cases.get(k)
+        if c is None:
+            continue   # reported by R4
+        # statements of this case: up to the next case label that has its own body
+        nxts = [cases[j] for j in order if j != k and cases[j].get('_off', 0) > c.get('_off', 0) and not any(a is c for a in ancestors(cases[j]))]
+        nxt_off = min([n.get('_off', 1 << 60) for n in nxts] or [1 << 60])
+        nodes = [y for y in walk(c) if y.get('_off', 0) < nxt_off or not y.get('_off')]
+        gs = [g for g in _get_calls(c) if g.get('_off', 0) < nxt_off]
+        used = {_variant_index(g) for g in gs}
+        whose = {_whose_value(g) for g in gs}
+        if k in (2,) and not gs:
+            continue   # `case 2:` falling into `case 3:` shares its body
+        ctx.check(bool(gs) and used <= expect[k] and whose <= {'other.value'}, R, 'operator<=>(JSON)|case-%d-alternative' % k, c,
+                  'case %d reads alternative(s) %s of other.value' % (k, sorted(used)), 'case %d (%s) reads alternative(s) %s of %s' % (k, ALT_NAMES[k], sorted(used), sorted(whose)))
+        # dispatch: this->operator<=>(*p) must resolve to the comparator whose parameter is p's alternative
+        for y in walk(c):
+            if y.get('_off', 0) >= nxt_off:
+                continue
+            if y.get('kind') == 'CXXMemberCallExpr' and call_name(y) == 'operator<=>' and is_this(member_call_object(y)):
+                d = callee_decl(y, u)
+                pk, pidx = _param_alt(d) if d is not None else (None, None)
+                ctx.check(pidx is not None and k in pidx, R, 'operator<=>(JSON)|case-%d-dispatch-%s' % (k, pk), y, 'dispatches to operator<=>(%s)' % pk,
+                          'case %d (%s) dispatches to operator<=>(%s), the comparator of another alternative' % (k, ALT_NAMES[k], pk))
+
+    # -- list: element values (not pointers) compared pairwise over the common prefix, then the sizes
+    for key in ('list_type',):
+        for f, idx in typed.get(key, []):
+            v = params_of(f)[0]
+            lab = 'operator<=>(list)'
+            elem = []
+            for x in walk(body_of(f)):
+                if x.get('kind') == 'CXXOperatorCallExpr' and call_name(x) == 'operator<=>' and len(kids(x)) == 3:
+                    ts = [norm_alt(qtype(strip(a))) for a in kids(x)[1:]]
+                    if all(t.endswith('JSON') for t in ts):
+                        elem.append(x)
+            loops = [x for x in walk(body_of(f)) if x.get('kind') in ('ForStmt', 'WhileStmt', 'CXXForRangeStmt')]
+            in_loop = [e for e in elem if any(a in loops for a in ancestors(e))]
+            ok = len(in_loop) >= 1
+            same_index = False
+            for e in in_loop:
+                subs = [[canon(call_args_op(s)[1]) for s in walk(a) if s.get('kind') == 'CXXOperatorCallExpr' and call_name(s) == 'operator[]'] for a in kids(e)[1:]]
+                sides = [{'v' if any((ref_decl(z) or {}).get('id') == v['id'] for z in walk(a)) else 'stored' for _ in [0]} for a in kids(e)[1:]]
+                if all(len(s) == 1 for s in subs) and subs[0] == subs[1] and sides[0] != sides[1]:
+                    same_index = True
+            ctx.check(ok and same_index, R, lab + '|elementwise', in_loop[0] if in_loop else f, 'stored[z] and v[z] are compared as JSON values at the same index', 'the list comparator does not compare *stored[z] with *v[z] (JSON values, same index, one from each side)')
+            rets = [x for x in walk(body_of(f)) if x.get('kind') == 'ReturnStmt']
+            last = rets[-1] if rets else None
+            sizes = [x for x in walk(last) if x.get('kind') == 'CXXMemberCallExpr' and call_name(x) == 'size'] if last else []
+            sides = {'v' if (ref_decl(member_call_object(x)) or {}).get('id') == v['id'] else 'stored' for x in sizes}
+            ctx.check(len(sizes) == 2 and sides == {'v', 'stored'}, R, lab + '|then-sizes', last or f, 'after the common prefix the sizes decide', 'the list comparator does not finish by comparing the two sizes')
+
+    # -- dict: equal sizes, every key of one side looked up in the other, values compared as JSON
+    for key in ('dict_type',):
+        for f, idx in typed.get(key, []):
+            v = params_of(f)[0]
+            lab = 'operator<=>(dict)'
+            b = body_of(f)
+            size_guard = False
+            for s in walk(b):
+                if s.get('kind') == 'IfStmt':
+                    cond, then, els = if_parts(s)
+                    r = relation(cond, True)
+                    if r and r[1] == '!=' and all(x.get('kind') == 'CXXMemberCallExpr' and call_name(x) == 'size' for x in (strip(r[0]), strip(r[2]))) and _is_unordered(then) and not falls_through(then):
+                        size_guard = True
+            ctx.check(size_guard, R, lab + '|size-guard', f, 'different sizes compare unordered', 'the dict comparator has no `sizes differ -> unordered` guard: a dict would equal any superset of itself')
+            loops = [x for x in walk(b) if x.get('kind') == 'CXXForRangeStmt']
+            lookups = [x for x in walk(b) if x.get('kind') == 'CXXMemberCallExpr' and call_name(x) in ('at', 'find') and any(a in loops for a in ancestors(x))]
+            vals = []
+            for x in walk(b):
+                if x.get('kind') == 'CXXOperatorCallExpr' and call_name(x) == 'operator<=>' and len(kids(x)) == 3 and all(norm_alt(qtype(strip(a))).endswith('JSON') for a in kids(x)[1:]) and any(a in loops for a in ancestors(x)):
+                    vals.append(x)
+            ctx.check(len(loops) == 1 and bool(lookups) and bool(vals), R, lab + '|per-key', loops[0] if loops else f, 'every key is looked up on the other side and the values are compared as JSON values',
+                      'the dict comparator does not look every key up on the other side and compare the values (loops=%d lookups=%d value-compares=%d)' % (len(loops), len(lookups), len(vals)))
+            # a value mismatch or a missing key yields unordered; falling out of the loop yields equivalent
+            mism = False
+            for x in vals:
+                st = enclosing(x, ('IfStmt',))
+                if st is not None:
+                    cond, then, els = if_parts(st)
+                    if any(y is x for y in walk(cond)) and _is_unordered(then):
+                        mism = True
+            rets = [x for x in walk(b) if x.get('kind') == 'ReturnStmt']
+            last_eq = bool(rets) and any(y.get('kind') == 'DeclRefExpr' and (y.get('referencedDecl') or {}).get('name') == 'equivalent' for y in walk(rets[-1])) and rets[-1].get('_p') is b
+            ctx.check(mism and last_eq, R, lab + '|verdicts', f, 'value mismatch -> unordered; all keys matched -> equivalent', 'the dict comparator does not return unordered on a value mismatch and equivalent only after every key matched')
+
+
+def call_args_op(x):
+    """operands of a CXXOperatorCallExpr (callee excluded)."""
+    return kids(x)[1:]
 
 
 def split_targs(t):
